@@ -442,3 +442,76 @@ Lemma ended_live_first (t : table) (pend ended : list str) (p : pkt) :
   pending_hit pend p = true ->
   do_route_e t pend ended p = (fst (do_route t pend p), snd (do_route t pend p), ended).
 Proof. intros Hp. unfold do_route_e. rewrite Hp. reflexivity. Qed.
+
+(* ---- histories: routes registered while the router is in use ---- *)
+Lemma router_match_app_some (t t' : table) (p : pkt) (i : nat) :
+  router_match t p = Some i -> router_match (t ++ t') p = Some i.
+Proof.
+  revert i. induction t as [|r t IH]; intros i H; simpl in *; [discriminate|].
+  destruct (route_match r p); [exact H|].
+  destruct (router_match t p) as [j|] eqn:E; [|discriminate].
+  rewrite (IH j eq_refl). exact H.
+Qed.
+
+Lemma router_match_app_none (t t' : table) (p : pkt) :
+  router_match t p = None ->
+  router_match (t ++ t') p =
+  match router_match t' p with Some j => Some (length t + j)%nat | None => None end.
+Proof.
+  induction t as [|r t IH]; intros H; simpl in *.
+  - destruct (router_match t' p); reflexivity.
+  - destruct (route_match r p); [discriminate|].
+    destruct (router_match t p) as [j|] eqn:E; [discriminate|].
+    rewrite (IH eq_refl). destruct (router_match t' p); reflexivity.
+Qed.
+
+Lemma run_hist_dispatches (t : table) (h : list hop) :
+  run_hist t h = map (fun tp => route_ordinary (fst tp) (snd tp)) (dispatches t h).
+Proof.
+  revert t. induction h as [|o h IH]; intros t; simpl; [reflexivity|].
+  destruct o as [r|p ins]; simpl; [apply IH|]. f_equal. apply IH.
+Qed.
+
+Lemma dispatches_packets (t : table) (h : list hop) :
+  map snd (dispatches t h) = hist_packets h.
+Proof.
+  revert t. induction h as [|o h IH]; intros t; simpl; [reflexivity|].
+  destruct o as [r|p ins]; simpl; [apply IH|]. f_equal. apply IH.
+Qed.
+
+Lemma route_ordinary_outcome (t : table) (p : pkt) :
+  (exists i, router_match t p = Some i /\ route_ordinary t p = [EHandle i]) \/
+  (router_match t p = None /\
+   exists a ns any, p = PIQ a ns any /\ is_request (a_type a) = true /\
+                    route_ordinary t p = [ESend (err_reply a)]) \/
+  (router_match t p = None /\ route_ordinary t p = [] /\
+   forall a ns any, p = PIQ a ns any -> is_request (a_type a) = false).
+Proof.
+  unfold route_ordinary. destruct (router_match t p) as [i|] eqn:E.
+  - left. exists i. split; reflexivity.
+  - right. destruct p as [a|a|a ns any|k].
+    + right. repeat split; intros; discriminate.
+    + right. repeat split; intros; discriminate.
+    + destruct (is_request (a_type a)) eqn:R.
+      * left. split; [reflexivity|]. exists a, ns, any. repeat split; assumption.
+      * right. repeat split. intros a' ns' any' H. inversion H; subst. exact R.
+    + right. repeat split; intros; discriminate.
+Qed.
+
+Lemma hist_one_outcome (t : table) (h : list hop) :
+  length (run_hist t h) = length (hist_packets h) /\
+  Forall2 (fun tp ev =>
+      (exists i, router_match (fst tp) (snd tp) = Some i /\ ev = [EHandle i]) \/
+      (router_match (fst tp) (snd tp) = None /\
+       exists a ns any, snd tp = PIQ a ns any /\ is_request (a_type a) = true /\
+                        ev = [ESend (err_reply a)]) \/
+      (router_match (fst tp) (snd tp) = None /\ ev = [] /\
+       forall a ns any, snd tp = PIQ a ns any -> is_request (a_type a) = false))
+    (dispatches t h) (run_hist t h).
+Proof.
+  split.
+  - rewrite run_hist_dispatches, map_length, <- (dispatches_packets t h), map_length. reflexivity.
+  - rewrite run_hist_dispatches. induction (dispatches t h) as [|tp l IH]; simpl; constructor.
+    + apply route_ordinary_outcome.
+    + exact IH.
+Qed.
